@@ -6,7 +6,7 @@ import json
 import os
 import random
 
-from ..core import crashed, Result, out_bytes, cli, REPO, STEP_BUDGET
+from ..core import scrub_env, crashed, Result, out_bytes, cli, REPO, STEP_BUDGET
 from .. import gen, ser
 from ..val import clone, strings_of
 
@@ -524,6 +524,19 @@ def check_struct(ctx, case, res):
                     res.execs += 1
                     if not judge_cli(res, r2, tool, 'json', detail={'layers': layers, 'file_format': inf}):
                         return res
+                # the wrapper (bklb as "catb": evaluate the argument, then run cat on the result): complete output and status 0, or nothing
+                # on stdout and a non-zero status - in particular it fails whenever the evaluation fails
+                os.symlink(ctx.bin('bklb'), os.path.join(d, 'catb'))
+                os.makedirs(os.path.join(d, 'wtmp'), exist_ok=True)
+                r3 = cli([os.path.join(d, 'catb'), top], cwd=d, env=scrub_env({'TMPDIR': os.path.join(d, 'wtmp')}))
+                res.execs += 1
+                ext = top.rsplit('.', 1)[-1]
+                wf = ext if ext in ('json', 'yaml', 'toml') and (ext != 'toml' or pf) else None
+                if not judge_cli(res, r3, 'bklb (as catb)', wf, must_fail=(r.rc != 0), detail={'layers': layers, 'file_format': inf}):
+                    return res
+                if r.rc == 0 and r3.rc != 0:
+                    return res.violate('spurious', 'bklb fails on an input that bkl evaluates: %s' % r3.err[-300:].decode('utf-8', 'replace'), layers=layers)
+                res.ev('wrapper_runs_judged')
         finally:
             ctx.cleanup_case(d)
     return res
